@@ -71,12 +71,25 @@ fn page_exact(ctx: &mut Ctx) {
 }
 
 #[derive(Clone, Debug, PartialEq)]
-pub enum Item { VU(Vec<u64>), VP(Vec<(u64, u64)>), Bytes(Vec<u8>), Str(String), Opt(Option<Vec<u64>>), Raw(RawVector), Int(IntVector) }
+pub enum Item { VU(Vec<u64>), VP(Vec<(u64, u64)>), Bytes(Vec<u8>), Str(String), Opt(Option<Vec<u64>>), Raw(RawVector), Int(IntVector), OptWide(Vec<u64>, String) }
+
+// A user-defined structure with two members, as in the documentation of the Serialize trait. Stored as an optional
+// structure and viewed through MappedOption<view of the first member>: the view's extent is the optional structure's.
+#[derive(Clone, Debug, PartialEq)]
+struct TwoMembers(Vec<u64>, String);
+
+impl Serialize for TwoMembers {
+    fn serialize_header<T: std::io::Write>(&self, _: &mut T) -> std::io::Result<()> { Ok(()) }
+    fn serialize_body<T: std::io::Write>(&self, writer: &mut T) -> std::io::Result<()> { self.0.serialize(writer)?; self.1.serialize(writer) }
+    fn load<T: std::io::Read>(reader: &mut T) -> std::io::Result<Self> { let a = Vec::<u64>::load(reader)?; let b = String::load(reader)?; Ok(TwoMembers(a, b)) }
+    fn size_in_elements(&self) -> usize { self.0.size_in_elements() + self.1.size_in_elements() }
+}
 
 impl Item {
     pub fn random(rng: &mut Rng, allow_empty: bool) -> Item {
         let len = match rng.below(5) { 0 if allow_empty => 0, 1 => 1, 2 => 1 + rng.below(9), _ => 1 + rng.below(40) };
-        match rng.below(8) {
+        match rng.below(9) {
+            8 => Item::OptWide((0..len).map(|_| rng.next_u64()).collect(), (0..1 + rng.below(30)).map(|i| (b'A' + (i % 26) as u8) as char).collect()),
             0 => Item::VU((0..len).map(|_| rng.next_u64()).collect()),
             1 => Item::VP((0..len).map(|_| (rng.next_u64(), rng.next_u64())).collect()),
             2 => Item::Bytes((0..len).map(|_| rng.next_u64() as u8 | 1).collect()),
@@ -92,11 +105,12 @@ impl Item {
         match self {
             Item::VU(x) => x.serialize(out), Item::VP(x) => x.serialize(out), Item::Bytes(x) => x.serialize(out), Item::Str(x) => x.serialize(out),
             Item::Opt(x) => x.serialize(out), Item::Raw(x) => x.serialize(out), Item::Int(x) => x.serialize(out),
+            Item::OptWide(a, b) => Some(TwoMembers(a.clone(), b.clone())).serialize(out),
         }.unwrap();
     }
 
     pub fn kind(&self) -> &'static str {
-        match self { Item::VU(_) => "Vec<u64>", Item::VP(_) => "Vec<(u64,u64)>", Item::Bytes(_) => "Vec<u8>", Item::Str(_) => "String", Item::Opt(Some(_)) => "Option<Vec<u64>>=Some", Item::Opt(None) => "Option<Vec<u64>>=None", Item::Raw(_) => "RawVector", Item::Int(_) => "IntVector" }
+        match self { Item::VU(_) => "Vec<u64>", Item::VP(_) => "Vec<(u64,u64)>", Item::Bytes(_) => "Vec<u8>", Item::Str(_) => "String", Item::Opt(Some(_)) => "Option<Vec<u64>>=Some", Item::Opt(None) => "Option<Vec<u64>>=None", Item::Raw(_) => "RawVector", Item::Int(_) => "IntVector", Item::OptWide(_, _) => "Option<{Vec<u64>,String}>" }
     }
 }
 
@@ -129,6 +143,11 @@ pub fn view(map: &MemoryMap, offset: usize, item: &Item) -> Result<(usize, usize
                 Some(x) => m.is_some() && !m.is_none() && m.unwrap().as_ref() == x.as_slice() && m.as_ref().map(|s| s.len()) == Some(x.len()),
                 None => m.is_none() && !m.is_some() && m.as_ref().is_none(),
             };
+            Ok((m.map_offset(), m.map_len(), same))
+        },
+        Item::OptWide(a, _) => {
+            let m = MappedOption::<MappedSlice<u64>>::new(map, offset).map_err(|e| e.to_string())?;
+            let same = m.is_some() && m.unwrap().as_ref() == a.as_slice();
             Ok((m.map_offset(), m.map_len(), same))
         },
         Item::Raw(v) => {
